@@ -275,6 +275,10 @@ func oneRun(seed int64, mode string, failAt int) runOut {
 	for _, l := range p.Location {
 		hadLines[l.ID] = len(l.Line)
 	}
+	hadFuncFlag := map[*profile.Mapping]bool{}
+	for _, m := range p.Mapping {
+		hadFuncFlag[m] = m.HasFunctions
+	}
 	namesBefore := map[*profile.Function]string{}
 	sysBefore := map[*profile.Function]string{}
 	for _, f := range p.Function {
@@ -383,6 +387,17 @@ func oneRun(seed int64, mode string, failAt int) runOut {
 				if named {
 					out.msg = fmt.Sprintf("%s: location %d of mapping %d was given function names by this run, but the mapping's has_functions flag is still unset", ctx, l.ID, m.ID)
 					break
+				}
+			}
+		}
+		// ... and a mapping that said it had function names keeps saying so while its locations
+		// still carry them (a pass that learns nothing new takes nothing away)
+		for _, l := range p.Location {
+			if m := l.Mapping; m != nil && hadFuncFlag[m] && !m.HasFunctions {
+				for _, ln := range l.Line {
+					if ln.Function != nil && ln.Function.Name != "" {
+						out.msg = fmt.Sprintf("%s: mapping %d had has_functions set and location %d still carries the function %q, but the flag was cleared", ctx, m.ID, l.ID, ln.Function.Name)
+					}
 				}
 			}
 		}
